@@ -262,11 +262,14 @@ theorem removeTablesW_link {w : World} {fl : List Nat} (L : PLink w fl) (hR : Ro
     obtain ⟨t, r, ht, hr, rfl⟩ := mem_rows.mp he
     obtain ⟨a1, a2, a4⟩ := L.row_live_id (S.lt t ht) hr
     have ha := hR.tbl hr
-    exact ⟨a1, a2, (L.aliveIff _ a2).mp ha, ha, t, r, ht, a4⟩
+    have hin : ((w.tbl t).getEntity r).id < w.pool.ents.length := by
+      rw [← L.lenEq]; exact (List.getElem?_eq_some_iff.mp a4).1
+    exact ⟨a1, a2, (L.aliveIff _ a2 hin).mp ha, ha, t, r, ht, a4⟩
   obtain ⟨p1, p2, p3, p4, p5⟩ := Pool.recycleAll_spec _ w.pool fl L.pool
     (fun e he => ⟨(hes e he).1, (hes e he).2.1, (hes e he).2.2.1⟩) hids
   rw [← fP] at p1 p2 p3 p4 p5
-  have hst' : (removeTablesW w ts).pool.stale = [] := by rw [p5]; exact L.stale
+  have hst' : ∀ (x : Ent), x ∈ (removeTablesW w ts).pool.stale → x.gen = maxU32 := by
+    rw [p5]; exact L.stale
   have htm : ∀ (t : Nat), t < w.tables.length → t ≠ maxU32 := by
     intro t ht; have := L.fewTables; omega
   -- tables
